@@ -35,6 +35,69 @@ ASSUMPTIONS = [
 PARAMS = ["amp", "xo", "yo", "sx", "sy", "theta"]
 
 
+MUTANTS = [
+    ("theta row per radian", "AegeanTools/fitting.py",
+     "            dmdtheta *= np.pi / 180\n", "", "C04-R1"),
+    ("sx row wrong power", "AegeanTools/fitting.py",
+     "dmdsx = model / sx ** 3 * (xcos + ysin) ** 2",
+     "dmdsx = model / sx ** 2 * (xcos + ysin) ** 2", "C04-R1"),
+    ("xo row sign", "AegeanTools/fitting.py",
+     "            dmdxo = cost * (xcos + ysin) / sx ** 2 + \\",
+     "            dmdxo = cost * (xcos + ysin) / sx ** 2 - \\", "C04-R1"),
+    ("amp row not normalised", "AegeanTools/fitting.py",
+     "            dmds = model / amp\n", "            dmds = model\n",
+     "C04-R1"),
+    ("yo/xo rows swapped", "AegeanTools/fitting.py",
+     "        if pars[prefix + 'xo'].vary:\n            dmdxo = cost",
+     "        if pars[prefix + 'yo'].vary:\n            dmdxo = cost",
+     "C04-R"),
+    ("stderr order differs", "AegeanTools/fitting.py",
+     "    j = 0\n    for i in range(int(params['components'].value)):\n"
+     "        prefix = \"c{0}_\".format(i)\n        for p in ['amp', 'xo', "
+     "'yo', 'sx', 'sy', 'theta']:",
+     "    j = 0\n    for i in range(int(params['components'].value)):\n"
+     "        prefix = \"c{0}_\".format(i)\n        for p in ['amp', 'yo', "
+     "'xo', 'sx', 'sy', 'theta']:", "C04-R3"),
+    ("index reset per component", "AegeanTools/fitting.py",
+     "    j = 0\n    for i in range(int(params['components'].value)):\n"
+     "        prefix = \"c{0}_\".format(i)\n        for p in",
+     "    for i in range(int(params['components'].value)):\n"
+     "        prefix = \"c{0}_\".format(i)\n        j = 0\n        for p in",
+     "C04-R4"),
+    ("skip fixed-amplitude components", "AegeanTools/fitting.py",
+     "        prefix = \"c{0}_\".format(i)\n        for p in ['amp', 'xo', "
+     "'yo', 'sx', 'sy', 'theta']:\n            if params[prefix + p].vary:\n"
+     "                params[prefix + p].stderr = onesigma[j]",
+     "        prefix = \"c{0}_\".format(i)\n        if not params[prefix + "
+     "'amp'].vary:\n            continue\n        for p in ['amp', 'xo', "
+     "'yo', 'sx', 'sy', 'theta']:\n            if params[prefix + p].vary:\n"
+     "                params[prefix + p].stderr = onesigma[j]", "C04-R4"),
+    ("variance instead of sigma", "AegeanTools/fitting.py",
+     "            covar = np.transpose(J).dot(J)\n            onesigma = "
+     "np.sqrt(np.diag(inv(covar)))",
+     "            covar = np.transpose(J).dot(J)\n            onesigma = "
+     "np.diag(inv(covar))", "C04-R5"),
+    ("unwhitened Fisher matrix", "AegeanTools/fitting.py",
+     "J = lmfit_jacobian(params, mask[0], mask[1], B=B, errs=errs)",
+     "J = lmfit_jacobian(params, mask[0], mask[1], errs=errs)", "C04-R5"),
+    ("B applied before errs", "AegeanTools/fitting.py",
+     "    if errs is not None:\n        matrix /= errs\n        # matrix = "
+     "matrix.dot(errs)\n\n    if B is not None:\n        matrix = "
+     "matrix.dot(B)\n",
+     "    if B is not None:\n        matrix = matrix.dot(B)\n\n    if errs "
+     "is not None:\n        matrix /= errs\n", "C04-R6"),
+]
+TWINS = [
+    ("theta factor via radians", "AegeanTools/fitting.py",
+     "            dmdtheta *= np.pi / 180\n",
+     "            dmdtheta = dmdtheta * np.radians(1)\n"),
+    ("sx row rewritten", "AegeanTools/fitting.py",
+     "dmdsx = model / sx ** 3 * (xcos + ysin) ** 2",
+     "dmdsx = model * ((xcos + ysin) / sx) ** 2 / sx"),
+]
+
+
+
 def suffix_of(node):
     """<x>[prefix + 'name']  -> 'name'"""
     if isinstance(node, ast.Subscript):
